@@ -3,7 +3,11 @@
  Persistence of one chunk file and recovery of a queue directory:
  util/files.go WriteFileAt / ReadFileAt, chunkoperator.go UnloadChunk /
  LoadChunk / ScanExistingChunks, outputfeeder.go loadToOutput (zero-length =>
- corrupt).  A process ("victim") persists chunks 1..K one after the other;
+ corrupt).  A process ("victim") persists chunks out of 1..K one after the other,
+ in ANY order of ids (at a stop the feeder saves the newer chunks of the input
+ queue before the older ones of the output window, and a consumer hands old
+ chunks back while new ones are spilled), so the file of an interrupted write
+ need not be the newest one in the directory;
  the environment may cut any write short, fail it, or kill the process at any
  step; a second process then recovers the directory and forwards what it finds.
 
@@ -24,7 +28,7 @@ NOFILE == -1
 S0 == [ n    |-> [i \in 1..K |-> 0],        \* produced length of chunk i
         file |-> [i \in 1..K |-> NOFILE],   \* length of the file under the chunk's own name (NOFILE = absent)
         temp |-> [i \in 1..K |-> NOFILE],   \* length of the chunk's temporary file
-        next |-> 1,                         \* next chunk to persist
+        started |-> {},                     \* chunks given to UnloadChunk so far (each id at most once)
         wpc  |-> "idle", cur |-> 0, written |-> 0,   \* WriteFileAt in progress
         saved |-> {}, failed |-> {},        \* UnloadChunk returned true / false
         phase |-> "victim",                 \* victim | dead | recover | done
@@ -38,9 +42,9 @@ S0 == [ n    |-> [i \in 1..K |-> 0],        \* produced length of chunk i
 Init == s = S0
 
 (***************************** the victim: UnloadChunk -> WriteFileAt *****************************)
-Persist(len) ==
-  /\ s.phase = "victim" /\ s.wpc = "idle" /\ s.next <= K
-  /\ s' = [s EXCEPT !.n[s.next] = len, !.cur = s.next, !.next = @ + 1, !.wpc = "open", !.written = 0]
+Persist(i, len) ==
+  /\ s.phase = "victim" /\ s.wpc = "idle" /\ i \in (1..K) \ s.started
+  /\ s' = [s EXCEPT !.n[i] = len, !.cur = i, !.started = @ \cup {i}, !.wpc = "open", !.written = 0]
 \* unix.Openat(dirfd, name + ".tmp", O_WRONLY|O_CREAT|O_TRUNC)
 OpenTemp == s.phase = "victim" /\ s.wpc = "open" /\ s' = [s EXCEPT !.temp[s.cur] = 0, !.wpc = "write"]
 OpenFails == s.phase = "victim" /\ s.wpc = "open" /\ s' = [s EXCEPT !.wpc = "idle", !.failed = @ \cup {s.cur}, !.cur = 0]
@@ -68,8 +72,7 @@ Crash == s.phase = "victim" /\ s' = [s EXCEPT !.phase = "dead", !.wpc = "idle", 
 
 \* the agent is started again on the same directory and persists further chunks (whatever the earlier life left behind,
 \* temporary files included, is still there)
-Respawn(f) == s.phase = "dead" /\ s.lives < MaxLives /\ f \in s.next..K
-              /\ s' = [s EXCEPT !.phase = "victim", !.lives = @ + 1, !.next = f]
+Respawn == s.phase = "dead" /\ s.lives < MaxLives /\ s' = [s EXCEPT !.phase = "victim", !.lives = @ + 1]
 
 \* a chunk file is found empty at startup (damage from outside, or a file left by an older version of the agent)
 DamageZero(i) == s.phase = "dead" /\ s.file[i] # NOFILE /\ s.file[i] # 0 /\ s' = [s EXCEPT !.file[i] = 0, !.zeroed = @ \cup {i}]
@@ -96,8 +99,8 @@ LoadFails ==     \* read error: counted as dropped, the file stays, recovery goe
   /\ s' = [s EXCEPT !.rq = Tail(@), !.readFailed = @ \cup {Head(s.rq)}]
 RecoveryDone == s.phase = "recover" /\ s.rq = <<>> /\ s.lq = <<>> /\ s' = [s EXCEPT !.phase = "done"]
 
-Next == (\E l \in Lens : Persist(l)) \/ OpenTemp \/ OpenFails \/ (\E k \in 1..3 : Write(k)) \/ WriteFails \/ CleanupTemp
-        \/ CloseTemp \/ Rename \/ Crash \/ (\E f \in 1..K : Respawn(f)) \/ (\E i \in 1..K : DamageZero(i)) \/ Scan \/ LoadOk \/ Forward \/ LoadCorrupt \/ LoadFails \/ RecoveryDone
+Next == (\E i \in 1..K, l \in Lens : Persist(i, l)) \/ OpenTemp \/ OpenFails \/ (\E k \in 1..3 : Write(k)) \/ WriteFails \/ CleanupTemp
+        \/ CloseTemp \/ Rename \/ Crash \/ Respawn \/ (\E i \in 1..K : DamageZero(i)) \/ Scan \/ LoadOk \/ Forward \/ LoadCorrupt \/ LoadFails \/ RecoveryDone
 Spec == Init /\ [][Next]_vars
 
 (***************************** properties *****************************)
